@@ -297,10 +297,12 @@ pub fn generate(rng: &mut Rng, p: &Pools, mode: &str) -> Workload {
     if !c10 && rng.chance(1, 6) {
         let kind = rng.below(3) as u8;
         let t = *rng.pick(&p.instants);
-        for _ in 0..rng.range(1, 3) {
-            let th = rng.usize_below(n_threads);
-            let pos = rng.usize_below(threads[th].len() + 1);
-            threads[th].insert(pos, Op::Churn { kind, seed: rng.below(4) as u32, n: rng.range(280, 600) as u32, t });
+        // usually on every thread at once (the sweep / eviction of one thread then meets the drops of the others)
+        for th in 0..n_threads {
+            if th == 0 || rng.chance(2, 3) {
+                let pos = rng.usize_below(threads[th].len().min(2) + 1);
+                threads[th].insert(pos, Op::Churn { kind, seed: rng.below(4) as u32, n: rng.range(280, 600) as u32, t });
+            }
         }
     }
     // bursts on colliding keys: every thread evaluates the same sun-event expression at the same instant for a
